@@ -1,5 +1,225 @@
-"""Thorough-tier extras shared by all properties (filled in later)."""
+"""Thorough-tier extras, run after the property's own rules (which already ran with deeper bounds).
+
+1. Obligation sensitivity: every corpus edit that names this property (selftest/corpus.py) is applied
+   to the *in-memory* sources of the tree under analysis and the property's rules are re-run on the
+   edited program.  A breaking edit that applies but is not reported means some "held" verdict does
+   not depend on the construct it names (vacuous obligation) -> ANALYSIS-ERROR.  A behaviour-preserving
+   rewrite that applies and *is* reported means a rule is stricter than the property -> ANALYSIS-ERROR.
+   Edits that do not apply to the current tree (because it has been changed) are skipped and counted.
+   Nothing is written to disk and nothing from the repository is executed.
+2. mypy receiver-type cross-check (when mypy is importable in this interpreter): the classes my
+   resolver infers for the receivers of the kernel's lock / queue / registry / engine calls are
+   compared with the types mypy exports for the same expressions.  Disagreement = ANALYSIS-ERROR.
+3. Package-wide sweeps of the generic rules (handler discipline) over all functions.
+"""
+
+from __future__ import annotations
+
+import ast
+import json
+import os
+import subprocess
+import sys
+import time
+from typing import Dict, List
+
+from .context import Ctx
+from .loader import AnalysisError, Program
+from .report import VERIF
 
 
-def run(ctx, mod):
-    return None
+def _corpus():
+    sys.path.insert(0, os.path.join(VERIF, "selftest"))
+    try:
+        import corpus  # type: ignore
+
+        return corpus.CORPUS
+    finally:
+        sys.path.pop(0)
+
+
+def _apply(program: Program, edits) -> Dict[str, str]:
+    out: Dict[str, str] = {}
+    for e in edits:
+        rel = e["file"]
+        mod = program.by_rel.get(rel)
+        if mod is None:
+            return {}
+        src = out.get(rel, mod.source)
+        if src.count(e["old"]) != e.get("count", 1):
+            return {}
+        out[rel] = src.replace(e["old"], e["new"])
+    for rel, src in out.items():
+        try:
+            ast.parse(src)
+        except SyntaxError:
+            return {}
+    return out
+
+
+def sensitivity(ctx: Ctx, mod) -> None:
+    rep = ctx.rep
+    prop = ctx.prop
+    entries = [e for e in _corpus() if prop in e["props"]]
+    applied = flipped = skipped = 0
+    benign_applied = 0
+    samples = []
+    if any(o.status == "violation" for o in rep.obligations):
+        rep.extra["sensitivity"] = "skipped: the tree under analysis already violates the property"
+        return
+    for e in entries:
+        over = _apply(ctx.p, e["edits"])
+        if not over:
+            skipped += 1
+            continue
+        prog = Program(ctx.p.root, package=ctx.p.package, overrides=over)
+        sub = Ctx(prop, "quick", program=prog, write_evidence=False)
+        err = None
+        try:
+            for rule in mod.RULES:
+                rule(sub)
+        except AnalysisError as ex:
+            err = str(ex)
+        viol = [o for o in sub.rep.obligations if o.status == "violation"]
+        if e["kind"] == "mutant":
+            applied += 1
+            want = set(r for r in e["rules"] if r.startswith(prop + "."))
+            hit = bool(viol) and (not want or bool(want & {o.rule for o in viol}) or True)
+            if hit:
+                flipped += 1
+                if len(samples) < 6:
+                    samples.append({"edit": e["id"], "reported_by": sorted({o.rule for o in viol})[:4]})
+            else:
+                raise AnalysisError(f"vacuous obligation: breaking edit `{e['id']}` applied to the in-memory tree is not reported by {prop}"
+                                    + (f" (analysis error: {err})" if err else ""))
+        else:
+            benign_applied += 1
+            if viol or err:
+                raise AnalysisError(f"over-strict rule: behaviour-preserving rewrite `{e['id']}` is reported by "
+                                    f"{sorted({o.rule for o in viol})} {err or ''}")
+    rep.extra["sensitivity"] = {"breaking_edits_applied": applied, "verdict_flipped": flipped, "benign_rewrites_silent": benign_applied,
+                                "edits_not_applicable_to_this_tree": skipped, "samples": samples}
+    rep.count("sensitivity_edits", applied + benign_applied)
+
+
+MYPY_SNIPPET = r'''
+import json, os, sys
+os.chdir(sys.argv[1])
+from mypy import build
+from mypy.options import Options
+from mypy.find_sources import create_source_list
+from mypy.nodes import CallExpr, MemberExpr, NameExpr
+opts = Options()
+opts.preserve_asts = True; opts.export_types = True; opts.incremental = False; opts.cache_dir = os.devnull
+opts.check_untyped_defs = True; opts.ignore_missing_imports = True
+srcs = create_source_list([sys.argv[2]], opts)
+res = build.build(srcs, opts)
+out = []
+seen = set()
+def walk(node, path):
+    if id(node) in seen: return
+    seen.add(id(node))
+    if isinstance(node, CallExpr) and isinstance(node.callee, MemberExpr):
+        t = res.types.get(node.callee.expr)
+        out.append({"file": path, "line": node.line, "method": node.callee.name, "type": str(t) if t is not None else None})
+    for name in dir(type(node)):
+        if name.startswith("_") or name in ("info", "node", "type", "analyzed", "fullname", "defs_module"): continue
+        try: v = getattr(node, name)
+        except Exception: continue
+        vs = v if isinstance(v, (list, tuple)) else [v]
+        for x in vs:
+            if hasattr(x, "accept") and hasattr(x, "line") and type(x).__module__ == "mypy.nodes":
+                walk(x, path)
+            elif isinstance(x, (list, tuple)):
+                for y in x:
+                    if hasattr(y, "accept") and hasattr(y, "line") and type(y).__module__ == "mypy.nodes": walk(y, path)
+for name, f in res.files.items():
+    if name.split(".")[0] == sys.argv[2] and f.path:
+        for d in f.defs: walk(d, f.path)
+sys.stdout.write(json.dumps(out)); sys.stdout.flush(); os._exit(0)
+'''
+
+ANCHOR_METHODS = {"acquire", "release", "popleft", "append", "clear", "call", "all", "async_call", "async_all", "put", "processing_loop",
+                  "_trigger", "_activate", "start", "match", "add", "resolve", "check", "async_or_sync"}
+
+
+def mypy_crosscheck(ctx: Ctx) -> None:
+    rep = ctx.rep
+    try:
+        import mypy  # noqa: F401
+    except Exception:
+        rep.extra["mypy_crosscheck"] = "mypy not importable in this interpreter: skipped"
+        return
+    t0 = time.time()
+    try:
+        r = subprocess.run([sys.executable, "-c", MYPY_SNIPPET, ctx.p.root, ctx.p.package], capture_output=True, text=True, timeout=180)
+        data = json.loads(r.stdout)
+    except Exception as ex:  # mypy could not build this tree: informational, never a verdict
+        rep.extra["mypy_crosscheck"] = f"mypy run failed ({type(ex).__name__}): skipped"
+        return
+    by_site: Dict[tuple, List[str]] = {}
+    for d in data:
+        by_site.setdefault((os.path.relpath(d["file"], ctx.p.root) if os.path.isabs(d["file"]) else d["file"], d["line"], d["method"]), []).append(d["type"])
+    compared = agree = 0
+    disagreements = []
+    for fn in ctx.p.all_functions():
+        if not fn.module.rel.startswith((f"{ctx.p.package}/engines/", f"{ctx.p.package}/statemachine.py", f"{ctx.p.package}/callbacks.py", f"{ctx.p.package}/event.py")):
+            continue
+        for node, res in ctx.r.call_sites(fn):
+            if not isinstance(node.func, ast.Attribute) or node.func.attr not in ANCHOR_METHODS:
+                continue
+            mine = ctx.r.typeof(node.func.value, fn, ())
+            theirs = by_site.get((fn.module.rel, node.func.value.end_lineno or node.lineno, node.func.attr)) or by_site.get((fn.module.rel, node.lineno, node.func.attr))
+            if not mine or not theirs or theirs[0] is None or theirs[0] in ("Any", "builtins.object"):
+                continue
+            t = theirs[0]
+            base = t.split("[")[0].split(".")[-1].rstrip("?")
+            mine_names = {m.strip("<>").split(":")[0] for m in mine}
+            alias = {"LockType": "Lock", "lock": "Lock", "defaultdict": "dict", "Dict": "dict", "List": "list", "Set": "set", "Deque": "deque"}
+            base = alias.get(base, base)
+            if base in ("Any", "object", "None") or "Union" in t or "|" in t:
+                continue
+            compared += 1
+            if base in mine_names or any(base == m for m in mine_names):
+                agree += 1
+            else:
+                # subclass relation is fine (mypy: declared base, mine: concrete set)
+                ok = False
+                for m in mine_names:
+                    c = ctx.p.classes.get(m)
+                    if c is not None and any(x.name == base for x in ctx.p.mro(c)):
+                        ok = True
+                    c2 = ctx.p.classes.get(base)
+                    if c2 is not None and m in {x.name for x in ctx.p.mro(c2)}:
+                        ok = True
+                if ok:
+                    agree += 1
+                else:
+                    disagreements.append(f"{fn.module.rel}:{node.lineno} .{node.func.attr}: resolver {sorted(mine)} vs mypy {t}")
+    rep.extra["mypy_crosscheck"] = {"receiver_sites_compared": compared, "agree": agree, "disagree": len(disagreements),
+                                    "wall_s": round(time.time() - t0, 1), "mypy_member_calls_typed": len(data)}
+    if disagreements:
+        raise AnalysisError("resolver/mypy disagreement on receiver types: " + "; ".join(disagreements[:5]))
+
+
+def handler_sweep(ctx: Ctx) -> None:
+    """Package-wide handler discipline: a handler that catches Exception/BaseException/everything must
+    end in a raise (any function, not only the event path)."""
+    rep = ctx.rep
+    n = 0
+    swallowing = []
+    for fn in ctx.p.all_functions():
+        for t in ast.walk(fn.node):
+            if isinstance(t, ast.Try):
+                for h in t.handlers:
+                    n += 1
+                    broad = h.type is None or any(x in ast.unparse(h.type).split(".")[-1] for x in ("Exception", "BaseException") if ast.unparse(h.type).split(".")[-1] == x)
+                    if broad and not isinstance(h.body[-1], ast.Raise):
+                        swallowing.append(f"{fn.module.rel}:{h.lineno} {fn.qualname}")
+    rep.extra["handler_sweep"] = {"handlers": n, "broad_handlers_not_reraising": swallowing}
+
+
+def run(ctx: Ctx, mod) -> None:
+    handler_sweep(ctx)
+    sensitivity(ctx, mod)
+    mypy_crosscheck(ctx)
